@@ -25,3 +25,10 @@ package actionlint
 // name lists embedded in messages are sorted before quoting
 //@ func sortedQuotes
 //@   body_calls [C02] sort.Strings iff true
+
+// C02: the list returned for a file is the list that was sorted by position (issorted(s): s was handed to
+// sort.Sort / sort.Stable), whatever filtering happened before
+//@ spec issorted(s: []*Error): bool
+//@ func (*Linter).check
+//@   props C02
+//@   at_return result1 == nil ==> issorted(result0)
